@@ -80,12 +80,16 @@ def apply_step(c, st):
         del c[st[1]]
     elif st[0] == "setitem":
         c[st[1]] = P(st[2])
+    elif st[0] == "expand":
+        c.expand(st[1])
     else:
         raise ValueError(st[0])
 
 
-def gen_steps(rng, n, g, lo=1, hi=3, setitem=False):
-    """a random in-place editing history of the collection g and the strings it should hold afterwards"""
+def gen_steps(rng, n, g, lo=1, hi=3, setitem=False, expand=0.0):
+    """a random in-place editing history of the collection g and the strings it should hold afterwards; with
+    probability `expand` the history ends with a direct expand() to a longer length (the strings get longer:
+    callers take the qubit count from the result)"""
     from harness import gens as G
     steps, cur = [], list(dict.fromkeys(g))
     for _ in range(rng.randint(lo, hi)):
@@ -110,6 +114,9 @@ def gen_steps(rng, n, g, lo=1, hi=3, setitem=False):
                 i = rng.randint(0, len(cur)); steps.append(["insert", i, x]); cur.insert(i, x)
         else:
             i = rng.randrange(len(cur)); steps.append(["del", i]); cur.pop(i)
+    if cur and rng.random() < expand:
+        d = rng.randint(1, 2)
+        steps.append(["expand", n + d]); cur = [x + "I" * d for x in cur]
     return steps, cur
 
 
